@@ -32,32 +32,139 @@ prop(
 )
 
 
-# ---- properties whose checks are being built: provisional claims (refined as contracts land) -------------
-_PROVISIONAL = {
-    "C02": "StepMania reading",
-    "C03": "StepMania writing",
-    "C04": "BMS reading",
-    "C05": "BMS writing",
-    "C06": "Quaver file <-> chart",
-    "C07": "O2Jam reading",
-    "C08": "converters preserve content",
-    "C09": "read -> convert -> write",
-    "C11": "reseating tempo changes",
-    "C12": "stacking writes through",
-    "C13": "rate change",
-    "C14": "operations never modify their inputs",
-    "C15": "row order does not matter",
-    "C17": "full-LN generation",
-    "C18": "hitsound copy",
-    "C19": "dominant bpm / scroll speed / SV normalisation",
-    "C20": "pattern grouping and combinations",
-}
-for _pid, _what in _PROVISIONAL.items():
-    if _pid not in PROPS:
-        prop(
-            _pid, "exploration",
-            f"{_what}: the property's contract is checked at run time on the real functions over enumerated and seeded inputs against an independent oracle (bounded stand-in; nothing is counted as proved).",
-            "bounded stand-in only; oracle written from the property statement / public format description",
-            "run-time contract checking of the real code against an independent oracle (bounded stand-in of the contract-based family)",
-            f"DESIGN.md section 7 {_pid}",
-        )
+prop(
+    'C02', 'other',
+    'The cell step of SMMap._read_notes (symbol dispatch, position (measure, beat+snap), head/tail pairing per column) is verified as a loop-body unit from an arbitrary state for all positions; position -> ms is TimingMap.offsets (C10 contracts) and the tempo list is the reseated map (C11 step units). Tokenising, header routing and whole files are checked by running the real reader on generated .sm texts against an independent exact-rational StepMania interpreter (bounded).',
+    'A1, A3, A5 (.sm denotation in contracts/C02_bounded.py); the state of the cell step holds 3 columns; whole-file part bounded.',
+    'contract-based deductive verification (loop-body unit, z3) + bounded run-time checking against an independent format interpreter',
+    "DESIGN.md section 7 C02", explanation='loop-body unit proved for all states of the stated shape; the reader as a whole only by the bounded stand-in (592 quick / 5450 thorough generated files)',
+)
+
+prop(
+    'C03', 'exploration',
+    'Bounded stand-in only: the real SMMapSet.write() output of generated and read mapsets (rated, selectable False, >384-row measures, empty measures, all chart types) is parsed by the independent exact-rational .sm interpreter and compared with the in-memory mapset; header fields read back; re-read stability.',
+    'A5 (.sm denotation); nothing counted as proved',
+    'run-time contract checking of the real writer against an independent format interpreter (bounded stand-in)',
+    "DESIGN.md section 7 C03",
+)
+
+prop(
+    'C04', 'exploration',
+    'Bounded stand-in: the real BMSMap.read on generated BMS/BME/PMS texts (all five layouts, subdivisions, 03/08 tempo events, LNOBJ, repeated and shuffled lines) against an independent exact-rational BMS interpreter; the five channel layout tables are enumerated completely (bijection channel <-> column).',
+    'A5 (BMS denotation in contracts/C04_bounded.py); nothing counted as proved',
+    'run-time contract checking against an independent format interpreter (bounded) + exhaustive enumeration of the finite layout tables',
+    "DESIGN.md section 7 C04",
+)
+
+prop(
+    'C05', 'other',
+    "find_lcm (denominator grouping) carries a contract - every returned denominator is a positive multiple of the line's own and is the original or below the threshold - discharged by z3 from the real source for 1..3 symbolic denominators with np.lcm used through its contract; tempo ids 1..1295 and the five layout tables are enumerated completely; the writer as a whole is run on generated charts (unsorted tempo rows included) and its bytes parsed by the independent BMS interpreter (bounded).",
+    'A2 (np.lcm contract), A5; slot arithmetic and DataFrame grouping only bounded',
+    'contract-based deductive verification (z3, lcm divisibility facts) + exhaustive enumeration of finite tables + bounded run-time checking against an independent interpreter',
+    "DESIGN.md section 7 C05", explanation='find_lcm proved at 1..3 denominators (shape-bounded); ids/layouts decided exhaustively; everything else bounded',
+)
+
+prop(
+    'C06', 'other',
+    "The list <-> record translations (Qua*List.to_yaml for hits, holds, tempo points, SVs) carry contracts - exactly the format's keys, 1-based lanes, EndTime = start + length, whole-ms truncation (< 1 ms), the list itself not modified by writing - discharged by z3 over the frame model; mode <-> key count is enumerated. Documents, YAML quoting, omitted-key defaults and converted charts are checked by running the real reader / writer against an independent denotation (bounded).",
+    'shape-bounded (0..3 rows); A2 frame model, yaml only bounded',
+    'contract-based deductive verification over a shape-bounded symbolic frame model (z3) + bounded run-time checking against an independent denotation',
+    "DESIGN.md section 7 C06", uses_frames=True, explanation='shape-bounded deductive verification: the REAL function bodies are executed symbolically over a static-shape model of pandas frames / numpy arrays (every cell value and every row label symbolic, row counts 0..3) and the VCs discharged by z3 - a proof for all values at those shapes, NOT an unbounded proof; larger shapes, other classes and whole files only by the bounded native side',
+)
+
+prop(
+    'C07', 'other',
+    'The tempo sweep of O2JMap.read_pkgs is verified as a loop-body unit from an arbitrary state (any number of tempo events): consuming an event advances the running time by the elapsed measures at the active tempo (240000/bpm ms per measure), stamps the event and makes its tempo active. Byte decoding (struct), package framing, hold pairing and whole files are checked by running the real reader on generated OJN bytes (tempo packages in any file order) against an independent exact-rational OJN interpreter (bounded).',
+    'A1, A3 (struct), A5 (OJN layout in contracts/C07_bounded.py); state holds 1..3 tempo events',
+    'contract-based deductive verification (loop-body unit, z3) + bounded run-time checking against an independent format interpreter',
+    "DESIGN.md section 7 C07", explanation='loop-body unit proved for all states of the stated shape; byte-level reader only by the bounded stand-in',
+)
+
+prop(
+    'C08', 'other',
+    "ConvertBase.cast and eight whole converters (OsuToQua, QuaToOsu, OsuToBMS, QuaToBMS, OsuToSM, QuaToSM, BMSToQua, BMSToSM) are executed from their real source over the frame model with SYMBOLIC ROW LABELS (= any history of the source): target hits/holds/tempo points/SVs equal the source's positionally, explicit column shift only, only the target's declared fields, nothing missing, metadata from the source, source untouched. All 16 converters + merge on histories of real charts: bounded.",
+    'shape-bounded (lists of 0..3 rows, all cells and labels symbolic); A2 frame model; dtypes not modelled; metadata strings concrete in the symbolic run',
+    'contract-based deductive verification over a shape-bounded symbolic frame model (z3) + bounded run-time checking over histories',
+    "DESIGN.md section 7 C08", uses_frames=True, explanation='shape-bounded deductive verification: the REAL function bodies are executed symbolically over a static-shape model of pandas frames / numpy arrays (every cell value and every row label symbolic, row counts 0..3) and the VCs discharged by z3 - a proof for all values at those shapes, NOT an unbounded proof; larger shapes, other classes and whole files only by the bounded native side',
+)
+
+prop(
+    'C09', 'exploration',
+    "Bounded stand-in: generated source files in all five formats x 16 source->target pairs through the real read / convert / write, the written text parsed by the target's independent interpreter and compared with the source's interpreter applied to the source file (objects, columns, hold lengths, tempo timeline, validity). The composition also rests on the per-format and converter contracts of C01-C08.",
+    'A5 oracles of C01/C02/C04/C06/C07; nothing counted as proved',
+    'run-time contract checking end to end against independent format interpreters (bounded stand-in)',
+    "DESIGN.md section 7 C09",
+)
+
+prop(
+    'C11', 'other',
+    'One iteration of the reseat loop is verified as a loop-body unit per branch from an arbitrary state (for every metronome 1..8 and all bpms / times): whole measures -> nothing changes and the next change is seated at its own time; a partial measure -> the current change is re-timed in place or exactly one point is inserted on a measure line whose single measure spans the rest; the just-after-a-line case stretches the last measure. Elapsed time between the two changes is preserved in every case. The whole loop (lists of 2-4 changes on the half-beat grid exhaustively, random finer grids) is enumerated natively against exact rational integration (bounded).',
+    "A1; proof hints (real-arithmetic identities proved by nlsat first); the tiny-gap and near-beat-gap classes are known findings and excluded by the step contracts' case preconditions",
+    'contract-based deductive verification (loop-body units per branch, z3 nlsat / linear abstraction) + bounded enumeration of the whole loop',
+    "DESIGN.md section 7 C11", explanation='step obligations proved for all states; the loop-level claim (induction over iterations) is argued in DESIGN.md and enumerated natively, not machine-checked',
+)
+
+prop(
+    'C12', 'other',
+    'Map.stack / Stacker.__init__ / __getitem__ / __setitem__ / _update / loc and the generated stack properties are executed from their real source over the frame model: whole-column arithmetic and conditional assignment change exactly the selected rows and columns of each list as the same edit on each list alone would; lengths, order, classes, other columns and lists lacking the property untouched (empty lists and arbitrary labels included). Operation sequences, mapset stacks and stale stackers: bounded.',
+    'shape-bounded (lists of 0..2 rows); A2 frame model; dtypes not modelled',
+    'contract-based deductive verification over a shape-bounded symbolic frame model (z3) + bounded run-time checking over operation sequences',
+    "DESIGN.md section 7 C12", uses_frames=True, explanation='shape-bounded deductive verification: the REAL function bodies are executed symbolically over a static-shape model of pandas frames / numpy arrays (every cell value and every row label symbolic, row counts 0..3) and the VCs discharged by z3 - a proof for all values at those shapes, NOT an unbounded proof; larger shapes, other classes and whole files only by the bounded native side',
+)
+
+prop(
+    'C13', 'other',
+    'Map.rate / OsuMap.rate from their real source over the frame model: every time and duration / r, every bpm * r, other fields unchanged, original untouched, new frames; rate(1) identity and rate(a).rate(b) == rate(a*b) over the reals; osu preview point. Write -> read of rated charts, mapsets, int-typed charts and the StepMania file offset: bounded.',
+    'shape-bounded; A1 (composition over reals only); dtypes not modelled (int-typed charts are covered by the bounded side)',
+    'contract-based deductive verification over a shape-bounded symbolic frame model (z3 nlsat) + bounded run-time checking',
+    "DESIGN.md section 7 C13", uses_frames=True, explanation='shape-bounded deductive verification: the REAL function bodies are executed symbolically over a static-shape model of pandas frames / numpy arrays (every cell value and every row label symbolic, row counts 0..3) and the VCs discharged by z3 - a proof for all values at those shapes, NOT an unbounded proof; larger shapes, other classes and whole files only by the bounded native side',
+)
+
+prop(
+    'C14', 'other',
+    "Frame clauses (receiver / arguments unchanged in values, fields and labels; result shares no frame) as postconditions on the real source of the list operations (after, before, sorted, append, move_*, deepcopy, HoldList variants), rate, cast, eight converters and sv_normalize, plus 'editing the copy later does not change the input', all over the frame model which tracks in-place mutation exactly. Every other listed operation (writers, full_ln, hitsound_copy, scroll_speed, dominant_bpm, patterns): dynamic snapshot twin (bounded).",
+    'shape-bounded; A2 frame model; objects inside cells are not tracked symbolically',
+    'contract-based deductive verification of frame clauses over a shape-bounded symbolic frame model (z3) + bounded dynamic snapshot twin',
+    "DESIGN.md section 7 C14", uses_frames=True, explanation='shape-bounded deductive verification: the REAL function bodies are executed symbolically over a static-shape model of pandas frames / numpy arrays (every cell value and every row label symbolic, row counts 0..3) and the VCs discharged by z3 - a proof for all values at those shapes, NOT an unbounded proof; larger shapes, other classes and whole files only by the bounded native side',
+)
+
+prop(
+    'C15', 'other',
+    "Relational (2-safety) lemmas: the real operation is executed symbolically on a chart and on the same chart with every list's rows permuted; the results hold the same objects. Covered: rate, OsuToQua, QuaToOsu, sv_normalize. Writers, full_ln, hitsound_copy, dominant_bpm, scroll_speed: permutation twin on real charts (bounded).",
+    'shape-bounded (0..3 rows, selected permutations of each list); A2',
+    'contract-based relational verification over a shape-bounded symbolic frame model (z3) + bounded permutation twin',
+    "DESIGN.md section 7 C15", uses_frames=True, explanation='shape-bounded deductive verification: the REAL function bodies are executed symbolically over a static-shape model of pandas frames / numpy arrays (every cell value and every row label symbolic, row counts 0..3) and the VCs discharged by z3 - a proof for all values at those shapes, NOT an unbounded proof; larger shapes, other classes and whole files only by the bounded native side',
+)
+
+prop(
+    'C17', 'other',
+    'The per-row decision of full_ln (body of the inner loop) is verified as a loop-body unit from an arbitrary state: exactly one output note per row at its time and column on every path; last of a column keeps kind and length; otherwise a hold ending exactly gap before the next note iff that leaves the threshold, else a hit; a generated hold never reaches the next note. The stack / sort / groupby / diff pipeline and whole charts of every game: bounded against an oracle written from the statement.',
+    'A1; NaN handled as missing value; pipeline only bounded',
+    'contract-based deductive verification (loop-body unit, z3) + bounded run-time checking against an oracle from the statement',
+    "DESIGN.md section 7 C17", explanation='loop-body unit proved for all rows; grouping pipeline only by the bounded stand-in',
+)
+
+prop(
+    'C18', 'other',
+    'The two slot-filling loops of hitsound_copy are verified as loop-body units from an arbitrary state: a free note receives exactly the sounds still owed and the counters go down by what was placed; with no free note nothing is written; a named sample lands on the next free note or - every time none is free - becomes an event sample at that time; notes never move. Grouping by time / volume and whole chart pairs: bounded against the four clauses of the statement.',
+    'state table of 3 rows (static shape); A2 (df.at); pipeline only bounded',
+    'contract-based deductive verification (loop-body units, z3) + bounded run-time checking',
+    "DESIGN.md section 7 C18", uses_frames=True, explanation='loop-body units proved for all states of the stated shape; the grouping pipeline only by the bounded stand-in',
+)
+
+prop(
+    'C19', 'other',
+    "sv_normalize (override given) from its real source over the frame model: one SV per tempo point at its time, multiplier * bpm == reference, the chart's own SV list class, chart untouched. dominant_bpm and scroll_speed are pandas pipelines outside the model: exact rational oracles from the definitions on generated charts (bounded).",
+    'shape-bounded; readings fixed in DESIGN.md (last object over all lists; last SV in list order wins)',
+    'contract-based deductive verification over a shape-bounded symbolic frame model (z3) + bounded run-time checking against exact oracles',
+    "DESIGN.md section 7 C19", uses_frames=True, explanation='shape-bounded deductive verification: the REAL function bodies are executed symbolically over a static-shape model of pandas frames / numpy arrays (every cell value and every row label symbolic, row counts 0..3) and the VCs discharged by z3 - a proof for all values at those shapes, NOT an unbounded proof; larger shapes, other classes and whole files only by the bounded native side',
+)
+
+prop(
+    'C20', 'other',
+    'Pattern.v_mask and Pattern.h_mask from their real source over a numpy lite model (0..4 notes, offsets and columns symbolic): the vertical mask is exactly the window [offset, offset+v] keeping only the first note of each column when jacks are avoided; the horizontal mask is exactly the column-distance test. The grouping loop, combinations and filters: exhaustive small-scope enumeration against a set-comprehension oracle (bounded).',
+    'shape-bounded; A2 numpy model (pyvc/npmodel.py): bisect on sorted sequences, symbolic sets',
+    'contract-based deductive verification over a shape-bounded numpy model (z3) + bounded exhaustive small-scope enumeration',
+    "DESIGN.md section 7 C20", explanation='mask kernels proved at 0..4 notes; partition / combinations only by the bounded stand-in',
+)
+
